@@ -428,7 +428,7 @@ class Steer:
                 if form == 'cadence' and spoil:
                     d['form'] = 'list'
                 return d
-            if name == 'extend' and spoil is None and rng.random() < 0.12:
+            if name == 'extend' and spoil is None and len(m.items) <= 24 and rng.random() < 0.12:
                 return dict(op='extend', xs=list(m.items), form='self')
             xs = self.offer_seq(k, spoil)
             if name == 'iadd':
@@ -458,6 +458,8 @@ class Steer:
             form = pick(rng, ['list', 'list', 'int64', 'int32', 'uint8', 'intp'])
             if form == 'uint8':
                 idx = [abs(v) for v in idx]
+                if any(v > 255 for v in idx):
+                    form = 'int64'
             return dict(op='getidx', idx=idx, form=form)
         if name == 'by_label':
             letters = sorted(set(m.order) | {v for v in m.labels.values() if v}) + ['Z']
@@ -1043,7 +1045,8 @@ class Run:
                 idx = op['idx']
                 raises = any(not -n <= v < n for v in idx)
                 want = None if raises else [m.items[v] for v in idx]
-                key = list(idx) if op['form'] == 'list' else np.array(idx, dtype=op['form'])
+                dtype = op['form'] if max(idx, default=0) < 256 else 'int64'
+                key = list(idx) if op['form'] == 'list' else np.array(idx, dtype=dtype)
                 tag = 'selection:index-' + ('list' if op['form'] == 'list' else 'ndarray')
                 if not idx:
                     tag += ':empty'
